@@ -178,7 +178,7 @@ def scenario(s, mode, ops):
                 nconn += 1
         return {"rpc": th.get("_RpcThread", 0), "ev": th.get("_EventDrivenThread", 0), "task": th.get("_TaskThread", 0),
                 "other_threads": other, "handlers": hk, "objmap": om, "active": act, "used": used,
-                "listen": listen, "nudp": nudp, "nconn": nconn, "reg": CS._qmi_context is not None,
+                "listen": listen, "nudp": nudp, "nconn": nconn, "reg": CS._qmi_context is not None, "has_ctx": ctx is not None,
                 "rel": list(st["rel"]), "hruns": list(st["hruns"]), "next": st["next"]}
 
     def with_fault(fault, fn):
@@ -273,7 +273,8 @@ def scenario(s, mode, ops):
             r = proxies[op[1]].ping(rpc_timeout=0.5)
             return ("val", r) if isinstance(r, int) else ("weird", repr(r))
         if k == "addh":
-            hid = len([1 for o in ops[:idx[0]] if o[0] == "addh"])
+            hid = st.setdefault("nexth", 0)
+            st["nexth"] = hid + 1
 
             def handler(hid=hid, bad=op[1]):
                 st["hruns"].append(hid)
@@ -403,6 +404,7 @@ def oracle(mode, ops, res):
     h_base = 0                 # id of the first of them
     stale_below = 0            # proxies with index < this belong to a stopped / replaced context
     dead = False               # the current context object was stopped (or torn down)
+    h_total = 0                # stop handlers registered so far (their ids are 0, 1, ...)
     have_ctx = False
     for i, (op, o) in enumerate(zip(ops, obs)):
         k, out = op[0], o["out"]
@@ -448,12 +450,12 @@ def oracle(mode, ops, res):
             dead = True
             stale_below = o["nprox"]
         elif k == "new" and ok:
-            have_ctx, dead, nh_ctx, h_base = True, False, 0, len([1 for q in ops[:i] if q[0] == "addh"])
+            have_ctx, dead, nh_ctx, h_base = True, False, 0, h_total
             stale_below = o["nprox"]
             if o["rpc"] != prev["rpc"] + 1 or hk != ["$context"]:
                 return bad("new", "a fresh context does not have exactly its $context object")
         elif k == "qstart" and ok:
-            have_ctx, dead, nh_ctx, h_base = True, False, 0, len([1 for q in ops[:i] if q[0] == "addh"])
+            have_ctx, dead, nh_ctx, h_base = True, False, 0, h_total
             stale_below = prev["nprox"]
             if not (o["active"] and o["reg"] and o["ev"] == prev["ev"] + 1 and o["listen"] and hk == ["$context"]):
                 return bad("start", "qmi.start returned but the context is not up")
@@ -530,10 +532,11 @@ def oracle(mode, ops, res):
                 return bad("call-class", "a call through a stale proxy fails with %s" % out[1])
         elif k == "addh" and ok:
             nh_ctx += 1
+            h_total += 1
         # -- table agreement (after the op-specific checks so that their messages win)
         if hk != sorted(live):
             return bad("handlers-vs-objects", "handler map keys %r differ from the live object names %r" % (hk, sorted(live)))
-        if have_ctx and "$pubsub" not in o["handlers"]:
+        if o.get("has_ctx") and "$pubsub" not in o["handlers"]:
             return bad("pubsub", "the $pubsub handler disappeared")
         if o["task"] < 0 or o["rpc"] < 0:
             return bad("threads-negative", "thread accounting broke")
@@ -583,19 +586,27 @@ def gen_history(rng):
         ops.append(("new",))
     if rng.random() < 0.9:
         ops.append(start())
+    made = []              # names of makes that probably succeeded (bias for remove / get / duplicates)
     while len(ops) < n:
         r = rng.random()
         if r < 0.36:
             nm = rng.choice(pool) if rng.random() < 0.9 else rng.randint(0, len(NAMES) - 1)
-            ops.append(("make", nm, rng.choice(KINDS), rng.random() < 0.72, rng.random() < 0.7, rng.random() < 0.7))
-            nprox += 1
+            ok = rng.random() < 0.72
+            ops.append(("make", nm, rng.choice(KINDS), ok, rng.random() < 0.7, rng.random() < 0.7))
+            if ok and 1 <= nm <= NVALID:
+                made.append(nm)
+                nprox += 1
         elif r < 0.50:
-            ops.append(("remove", rng.choice(pool) if rng.random() < 0.9 else rng.randint(0, len(NAMES) - 1)))
+            nm = rng.choice(made) if made and rng.random() < 0.7 else rng.choice(pool) if rng.random() < 0.8 else rng.randint(0, len(NAMES) - 1)
+            ops.append(("remove", nm))
+            if nm in made and rng.random() < 0.8:
+                made.remove(nm)
         elif r < 0.57:
-            ops.append(("get", rng.choice(pool) if rng.random() < 0.85 else rng.randint(1, len(NAMES) - 1)))
+            ops.append(("get", rng.choice(made) if made and rng.random() < 0.7 else rng.choice(pool) if rng.random() < 0.7
+                        else rng.randint(1, len(NAMES) - 1)))
             nprox += 1
         elif r < 0.67:
-            ops.append(("call", rng.randint(0, max(0, nprox))))
+            ops.append(("call", rng.randint(0, max(0, nprox - 1)) if rng.random() < 0.9 else nprox + 3))
         elif r < 0.74:
             ops.append(("addh", rng.random() < 0.5))
         elif r < 0.79:
@@ -644,7 +655,7 @@ def run(ck):
     ]
     _preload()
     rng = ck.rng
-    nrand = 260 if ck.tier == "quick" else 6000
+    nrand = 900 if ck.tier == "quick" else 15000
     hist = [(m, [tuple(o) for o in ops]) for m, ops in SCRIPTED]
     hist += [gen_history(rng) for _ in range(nrand)]
     jobs, meta = [], []
